@@ -113,14 +113,14 @@ def run_csr(case):
         for v in range(case["nvec"]):
             addr = (v % (1 << aw)) if sweep else rnd.randrange(1 << aw)
             rstb, wstb = rnd.getrandbits(1), rnd.getrandbits(1)
-            wdata = rnd.getrandbits(dw)
+            wdata = lib.bits(rnd, dw)
             speaker = rnd.randrange(len(subs)) if subs and rnd.random() < .8 else None
-            rs = [rnd.getrandbits(dw) if k == speaker else 0 for k in range(len(subs))]
+            rs = [lib.bits(rnd, dw) if k == speaker else 0 for k in range(len(subs))]
             ctx.set(dec.bus.addr, addr); ctx.set(dec.bus.r_stb, rstb); ctx.set(dec.bus.w_stb, wstb); ctx.set(dec.bus.w_data, wdata)
             for k, sb in enumerate(subs):
                 ctx.set(sb.r_data, rs[k])
             for g in ghosts:
-                ctx.set(g.r_data, rnd2.getrandbits(dw) | 1)
+                ctx.set(g.r_data, lib.bits(rnd2, dw) | 1)
             lines.append(f"cyc {addr} {rstb} {wstb} {wdata} " + " ".join(map(str, rs)))
             outs = []
             hit = None
@@ -233,8 +233,8 @@ def run_wb(case):
         for v in range(case["nvec"]):
             adr = (v % (1 << aw)) if aw <= 6 else rnd.randrange(1 << aw)
             cyc, stb, we, lock = int(rnd.random() < .8), rnd.getrandbits(1), rnd.getrandbits(1), rnd.getrandbits(1)
-            datw, sel = rnd.getrandbits(dw), rnd.getrandbits(selw)
-            cti, bte = rnd.choice(CTI), rnd.getrandbits(2)
+            datw, sel = lib.bits(rnd, dw), lib.bits(rnd, selw)
+            cti, bte = rnd.choice(CTI), lib.bits(rnd, 2)
             ctx.set(bus.cyc, cyc); ctx.set(bus.stb, stb); ctx.set(bus.we, we); ctx.set(bus.adr, adr)
             ctx.set(bus.dat_w, datw); ctx.set(bus.sel, sel)
             if "lock" in feats: ctx.set(bus.lock, lock)
@@ -249,7 +249,7 @@ def run_wb(case):
                 active = (k == own) and cyc          # subordinates respond only while selected
                 r = [int(active and rnd.random() < .5), int(active and "err" in sf and rnd.random() < .3),
                      int(active and "rty" in sf and rnd.random() < .3), int(active and "stall" in sf and rnd.random() < .3),
-                     rnd.getrandbits(sb.data_width)]
+                     lib.bits(rnd, sb.data_width)]
                 ctx.set(sb.ack, r[0]); ctx.set(sb.dat_r, r[4])
                 if "err" in sf: ctx.set(sb.err, r[1])
                 if "rty" in sf: ctx.set(sb.rty, r[2])
@@ -257,7 +257,7 @@ def run_wb(case):
                 resp.append(r)
                 stats["responses"] += r[0]
             for g in ghosts:
-                ctx.set(g.ack, 1); ctx.set(g.dat_r, rnd2.getrandbits(g.data_width) | 1)
+                ctx.set(g.ack, 1); ctx.set(g.dat_r, lib.bits(rnd2, g.data_width) | 1)
                 for nm in ("err", "rty", "stall"):
                     if hasattr(g, nm):
                         ctx.set(getattr(g, nm), 1)
@@ -400,13 +400,13 @@ def run_treeflat(case):
                     stats["txn_done"] += 1
             else:
                 addr, rstb, wstb = rnd.randrange(1 << aw), 0, 0
-            wdata = rnd.getrandbits(dw)
+            wdata = lib.bits(rnd, dw)
             for bus in (tbus, flat.bus):
                 ctx.set(bus.addr, addr); ctx.set(bus.r_stb, rstb); ctx.set(bus.w_stb, wstb); ctx.set(bus.w_data, wdata)
             for i, tw in zip(infos, twins):
                 el = i.resource.element
                 if el.access.readable():
-                    v = rnd.getrandbits(el.width) if el.width else 0
+                    v = lib.bits(rnd, el.width) if el.width else 0
                     ctx.set(el.r_data, v); ctx.set(tw.element.r_data, v)
             a, b = ctx.get(tbus.r_data), ctx.get(flat.bus.r_data)
             if a != b:
